@@ -20,14 +20,14 @@ VALS = {
     INT: ["0", "1", "7", "12", "49", "50", "51", "123", "-1", "-3", "007", "+5", "12a", "99999999999999999999", ""],
     HEX: ["0x0", "0x1", "0x1F", "0x3f", "0x40", "0x41", "1f", "0X2", "0x", "zz", "-0x1", "0x10"],
     FLOAT: ["0.5", "1.5", "5", "1e1", "1e3", "15.5", "25.5", "-0.0", "nan", "inf", "1,5", "3.25"],
-    STRING: ["a", "hello", 'q"t', "b\\c", "", "ab", " sp ", "# default:", "$(X)", "éß", "x=y", "CONFIG_A=y"],
+    STRING: ["a", "hello", 'q"t', "b\\c", "", "ab", " sp ", "# default:", "$(X)", "éß", "x=y", "CONFIG_A=y", "n", "y", "0", "0x1"],
 }
 SANE = {
     BOOL: ["y", "n"],
     INT: ["0", "1", "7", "12", "49", "50", "123"],
     HEX: ["0x0", "0x1", "0x1F", "0x3f", "0x40", "0x10"],
     FLOAT: ["0.5", "1.5", "5.0", "15.5", "3.25"],
-    STRING: ["a", "hello", 'q"t', "b\\c", "", "ab"],
+    STRING: ["a", "hello", 'q"t', "b\\c", "", "ab", "n", "y"],  # "n"/"y": values that collide with the bool encoding
 }
 
 
@@ -39,7 +39,7 @@ def lit(t, r):
     if t == FLOAT:
         return r.choice(["0.5", "1.5", "10.0", "3.25"])
     if t == STRING:
-        return '"%s"' % r.choice(["a", "b c", "x\\\\y", 'q\\"t', "", "hello"])
+        return '"%s"' % r.choice(["a", "b c", "x\\\\y", 'q\\"t', "", "hello", "n", "y"])
     return r.choice(["y", "n"])
 
 
@@ -641,3 +641,46 @@ def dep_edges(prog):
 
     rec(prog["items"], [])
     return edges
+
+
+def gen_menu_program(r, n=None):
+    """Swarm focus for the UI checks: few top-level rows and deep menu structure - a gate option, a menu that is
+    hidden/disabled through it (`visible if` / `depends on`), nested menus, menuconfig options and choices inside."""
+    g = Gen(r, n or 8, ALL_FEATS)
+    items = []
+    for _ in range(r.randint(1, 2)):
+        e = g.config(forced_type=BOOL)
+        e["depends"], e["prompt_cond"] = [], None
+        e["defaults"] = [[r.choice(["y", "n", "n"]), None]]
+        items.append(e)
+    gate = items[0]["name"]
+
+    def submenu(depth):
+        g.mcount += 1
+        m = {"k": "menu", "title": "M%d" % g.mcount, "depends": [], "visible_if": None, "items": []}
+        k = r.random()
+        cond = r.choice([gate, "!" + gate, gate + " = y"])
+        if k < 0.45:
+            m["visible_if"] = cond
+        elif k < 0.65:
+            m["depends"].append(cond)
+        for _ in range(r.randint(1, 3)):
+            kk = r.random()
+            if kk < 0.45 and depth < 2:
+                m["items"].append(submenu(depth + 1))
+            elif kk < 0.6:
+                mc = g.config(menuconfig=True)
+                m["items"].append(mc)
+                m["items"].append(g.config(extra_dep=mc["name"]))
+            elif kk < 0.7:
+                ch, _ = g.choice(3)
+                m["items"].append(ch)
+            else:
+                m["items"].append(g.config())
+        return m
+
+    for _ in range(r.randint(1, 2)):
+        items.append(submenu(0))
+    if r.random() < 0.4:
+        items.append(g.config())
+    return {"mainmenu": "T", "items": items, "feats": ALL_FEATS}
